@@ -64,6 +64,7 @@ func (e *Exec) initGoroutines() {
 	e.runq = nil
 	e.xfer = nil
 	e.schedExplore = false
+	e.preemptLeft = -1
 }
 
 // killGoroutines unwinds every parked interpreter goroutine of the finished path.
@@ -171,12 +172,15 @@ func (e *Exec) block(why string) {
 
 // schedPoint: another goroutine has become runnable; with schedule exploration the current one may be preempted.
 func (e *Exec) schedPoint() {
-	if !e.schedExplore || len(e.runq) == 0 || e.spec > 0 {
+	if !e.schedExplore || len(e.runq) == 0 || e.spec > 0 || e.preemptLeft == 0 {
 		return
 	}
 	k := e.choose(1 + len(e.runq))
 	if k == 0 {
 		return
+	}
+	if e.preemptLeft > 0 {
+		e.preemptLeft--
 	}
 	me := e.cur
 	next := e.removeRunq(k - 1)
